@@ -71,4 +71,429 @@ theorem abs_eq_iff (q : Q) (l : List (Option Elem)) :
 theorem abs_nil_iff (q : Q) : q.abs = [] ↔ q.top ≤ q.base := by
   rw [abs_eq_iff]; simp; omega
 
+theorem abs_shift (q q' : Q) (off : Int) (hb : q'.base = q.base + off) (ht : q'.top = q.top + off)
+    (hp : ∀ k, q.base ≤ k → k < q.top → q'.ptr (k + off) = q.ptr k) : q'.abs = q.abs := by
+  rw [abs_eq_iff]
+  refine ⟨by rw [abs_length]; omega, ?_⟩
+  intro k hk
+  rw [abs_length] at hk
+  rw [abs_getElem?]
+  have := hp (q.base + k) (by omega) (by omega)
+  have e : q'.base + (k:Int) = q.base + k + off := by omega
+  simp [hk, e, this]
+
+theorem abs_congr (q q' : Q) (hb : q'.base = q.base) (ht : q'.top = q.top)
+    (hp : ∀ k, q.base ≤ k → k < q.top → q'.ptr k = q.ptr k) : q'.abs = q.abs :=
+  abs_shift q q' 0 (by omega) (by omega) (by simpa using hp)
+
+theorem abs_snoc (q q' : Q) (x) (hb : q'.base = q.base) (ht : q'.top = q.top + 1) (hle : q.base ≤ q.top)
+    (hp : ∀ k, q.base ≤ k → k < q.top → q'.ptr k = q.ptr k) (hx : q'.ptr q.top = x) :
+    q'.abs = q.abs ++ [x] := by
+  rw [abs_eq_iff]
+  refine ⟨by simp [abs_length]; omega, ?_⟩
+  intro k hk
+  simp only [List.length_append, abs_length, List.length_singleton] at hk
+  simp only [List.getElem?_append, abs_getElem?, abs_length]
+  by_cases hk2 : k < (q.top - q.base).toNat
+  · have := hp (q.base + k) (by omega) (by omega)
+    simp [hk2, hb, this]
+  · have e : q'.base + (k:Int) = q.top := by omega
+    have hk3 : k - (q.top - q.base).toNat = 0 := by omega
+    simp [hk2, e, hk3, hx]
+
+theorem abs_cons (q q' : Q) (x) (hb : q'.base = q.base - 1) (ht : q'.top = q.top) (hle : q.base ≤ q.top)
+    (hp : ∀ k, q.base ≤ k → k < q.top → q'.ptr k = q.ptr k) (hx : q'.ptr (q.base - 1) = x) :
+    q'.abs = x :: q.abs := by
+  rw [abs_eq_iff]
+  refine ⟨by simp [abs_length]; omega, ?_⟩
+  intro k hk
+  simp only [List.length_cons, abs_length] at hk
+  cases k with
+  | zero => simp [hb, hx]
+  | succ k =>
+    simp only [List.getElem?_cons_succ, abs_getElem?]
+    have := hp (q.base + k) (by omega) (by omega)
+    have hk2 : k < (q.top - q.base).toNat := by omega
+    simp only [hk2, if_true, Option.some.injEq]
+    rw [← this]; congr 1; omega
+
+theorem abs_tail (q q' : Q) (hb : q'.base = q.base + 1) (ht : q'.top = q.top)
+    (hp : ∀ k, q.base + 1 ≤ k → k < q.top → q'.ptr k = q.ptr k) :
+    q'.abs = q.abs.tail := by
+  rw [abs_eq_iff]
+  refine ⟨by simp [abs_length]; omega, ?_⟩
+  intro k hk
+  simp only [List.length_tail, abs_length] at hk
+  simp only [List.getElem?_tail, abs_getElem?]
+  have := hp (q.base + k + 1) (by omega) (by omega)
+  have hk2 : k + 1 < (q.top - q.base).toNat := by omega
+  simp only [hk2, if_true, Option.some.injEq]
+  have e : q'.base + (k : Int) = q.base + k + 1 := by omega
+  rw [e, this]; congr 1; omega
+
+theorem abs_dropLast (q q' : Q) (hb : q'.base = q.base) (ht : q'.top = q.top - 1)
+    (hp : ∀ k, q.base ≤ k → k < q.top - 1 → q'.ptr k = q.ptr k) :
+    q'.abs = q.abs.dropLast := by
+  rw [abs_eq_iff]
+  refine ⟨by simp [abs_length]; omega, ?_⟩
+  intro k hk
+  simp only [List.length_dropLast, abs_length] at hk
+  rw [List.getElem?_dropLast]
+  simp only [abs_length, abs_getElem?]
+  have := hp (q.base + k) (by omega) (by omega)
+  have hk2 : k < (q.top - q.base).toNat - 1 := by omega
+  have hk3 : k < (q.top - q.base).toNat := by omega
+  simp [hk2, hk3, hb, this]
+
+theorem abs_head? (q : Q) : q.abs.head? = if q.base < q.top then some (q.ptr q.base) else none := by
+  rw [List.head?_eq_getElem?, abs_getElem?]
+  by_cases h : q.base < q.top
+  · have : 0 < (q.top - q.base).toNat := by omega
+    simp [h, this]
+  · have : ¬ 0 < (q.top - q.base).toNat := by omega
+    simp [h, this]
+
+theorem abs_getLast? (q : Q) : q.abs.getLast? = if q.base < q.top then some (q.ptr (q.top - 1)) else none := by
+  rw [List.getLast?_eq_getElem?, abs_getElem?, abs_length]
+  by_cases h : q.base < q.top
+  · have : (q.top - q.base).toNat - 1 < (q.top - q.base).toNat := by omega
+    have e : q.base + (((q.top - q.base).toNat - 1 : Nat) : Int) = q.top - 1 := by omega
+    simp [h, this, e]
+  · have : ¬ (q.top - q.base).toNat - 1 < (q.top - q.base).toNat := by omega
+    simp [h, this]
+
+theorem recentreDown_abs (q : Q) : (recentreDown q).abs = q.abs := by
+  apply abs_shift q _ (rcOff q.base) rfl rfl
+  intro k h1 h2
+  simp only [recentreDown, shiftPtr_apply]
+  have : q.base + rcOff q.base ≤ k + rcOff q.base ∧ k + rcOff q.base < q.top + rcOff q.base := by omega
+  simp [this]
+
+theorem recentreDown_wf (q : Q) (h : WF q) (hb : 0 < q.base) (ht : q.top = q.size) :
+    WF (recentreDown q) ∧ (recentreDown q).top < q.size ∧ (recentreDown q).size = q.size := by
+  obtain ⟨h0, h1, h2, h3⟩ := h
+  have hr := rcOff_bounds q.base hb
+  refine ⟨⟨?_, ?_, ?_, ?_⟩, ?_, rfl⟩
+  all_goals simp only [recentreDown]
+  any_goals omega
+  intro k k1 k2
+  have := h3 (k - rcOff q.base) (by omega) (by omega)
+  simp only [shiftPtr_apply]
+  have c : q.base + rcOff q.base ≤ k ∧ k < q.top + rcOff q.base := by omega
+  simpa [c] using this
+
+theorem recentreUp_abs (q : Q) : (recentreUp q).abs = q.abs := by
+  apply abs_shift q _ ((q.size - q.top + 1) / 2) rfl rfl
+  intro k h1 h2
+  simp only [recentreUp, shiftPtr_apply]
+  have : q.base + (q.size - q.top + 1) / 2 ≤ k + (q.size - q.top + 1) / 2 ∧
+      k + (q.size - q.top + 1) / 2 < q.top + (q.size - q.top + 1) / 2 := by omega
+  simp [this]
+
+theorem recentreUp_wf (q : Q) (h : WF q) (hb : q.base = 0) (ht : q.top ≠ q.size) :
+    WF (recentreUp q) ∧ 0 < (recentreUp q).base ∧ (recentreUp q).size = q.size := by
+  obtain ⟨h0, h1, h2, h3⟩ := h
+  refine ⟨⟨?_, ?_, ?_, ?_⟩, ?_, rfl⟩
+  all_goals simp only [recentreUp]
+  any_goals omega
+  intro k k1 k2
+  have := h3 (k - (q.size - q.top + 1) / 2) (by omega) (by omega)
+  simp only [shiftPtr_apply]
+  have c : q.base + (q.size - q.top + 1) / 2 ≤ k ∧ k < q.top + (q.size - q.top + 1) / 2 := by omega
+  simpa [c] using this
+
+/-- the queue is full as the code defines it: `top == size` and `base == 0` -/
+def Q.full (q : Q) : Prop := q.top = q.size ∧ q.base = 0
+instance (q : Q) : Decidable q.full := by unfold Q.full; exact inferInstance
+
+theorem full_iff (q : Q) (h : WF q) : q.full ↔ (q.abs.length : Int) = q.size := by
+  obtain ⟨h0, h1, h2, _⟩ := h
+  unfold Q.full; rw [abs_length]; omega
+
+/-- what each operation does to the abstract deque `q.abs` (base side first) and what it returns -/
+def OpSpec (q : Q) (op : Op) (q' : Q) (r : Res) : Prop :=
+  match op with
+  | .push e => if q.full then r = .abort ∧ q' = q else r = .unit ∧ q'.abs = q.abs ++ [some e]
+  | .pop => r = .val q.abs.getLast?.join ∧ q'.abs = q.abs.dropLast
+  | .take => r = .val q.abs.head?.join ∧ q'.abs = q.abs.tail
+  | .wtake true => r = .val q.abs.head?.join ∧ q'.abs = q.abs.tail
+  | .wtake false => r = .val none ∧ q'.abs = q.abs
+  | .peek => r = .val q.abs.head?.join ∧ q' = q
+  | .wpeek => q'.abs = q.abs ∧ (q.cache = none → r = .val q.abs.head?.join)
+  | .trypass e => if q.base = 0 then r = .ok false ∧ q' = q else r = .ok true ∧ q'.abs = some e :: q.abs
+  | .pass e => if q.base = 0 then r = .diverge ∧ q' = q else r = .unit ∧ q'.abs = some e :: q.abs
+  | .put e => if q.full then r = .abort ∧ q' = q else r = .unit ∧ q'.abs = some e :: q.abs
+  | .clear => if q.abs = [] then r = .unit ∧ q'.abs = [] else r = .assertFail ∧ q' = q
+
+theorem push_spec (q : Q) (e : Elem) (h : WF q) :
+    OpSpec q (.push e) (push q e).1 (push q e).2 ∧ WF (push q e).1 ∧ (push q e).1.size = q.size := by
+  have h' := h
+  obtain ⟨h0, h1, h2, h3⟩ := h
+  unfold OpSpec push Q.full
+  by_cases ht : q.top = q.size
+  · by_cases hb : q.base = 0
+    · simp [ht, hb, h']
+    · have hb' : 0 < q.base := by omega
+      obtain ⟨⟨r0, r1, r2, r3⟩, rt, rs⟩ := recentreDown_wf q h' hb' ht
+      simp only [ht, hb, if_true, if_false, and_false, true_and]
+      refine ⟨?_, ⟨?_, ?_, ?_, ?_⟩, ?_⟩
+      · rw [← recentreDown_abs q]
+        exact abs_snoc (recentreDown q) _ _ rfl rfl r1 (by intro k k1 k2; simp [upd_apply]; omega) (by simp)
+      · exact r0
+      · simp; omega
+      · simp; omega
+      · intro k k1 k2
+        simp only [upd_apply]
+        split
+        · exact ⟨_, rfl⟩
+        · exact r3 k k1 (by simp at k2; omega)
+      · exact rs
+  · simp only [ht, if_false, false_and, true_and]
+    refine ⟨?_, ⟨?_, ?_, ?_, ?_⟩, ?_⟩
+    · exact abs_snoc q _ _ rfl rfl h1 (by intro k k1 k2; simp [upd_apply]; omega) (by simp)
+    · exact h0
+    · simp; omega
+    · simp; omega
+    · intro k k1 k2
+      simp only [upd_apply]
+      split
+      · exact ⟨_, rfl⟩
+      · exact h3 k k1 (by simp at k2; omega)
+    · trivial
+
+theorem pop_spec (q : Q) (h : WF q) :
+    OpSpec q .pop (pop q).1 (pop q).2 ∧ WF (pop q).1 ∧ (pop q).1.size = q.size := by
+  have h' := h
+  obtain ⟨h0, h1, h2, h3⟩ := h
+  unfold OpSpec pop
+  by_cases hq : q.top ≤ q.base
+  · have he : q.abs = [] := (abs_nil_iff q).2 hq
+    simp [hq, he, h']
+  · simp only [hq, if_false]
+    have hlt : q.base < q.top := by omega
+    have hl : q.abs.getLast?.join = q.ptr (q.top - 1) := by rw [abs_getLast?]; simp [hlt]
+    rw [hl]
+    by_cases hf : q.base + 1 < q.top - 1
+    · simp only [hf, if_true, true_and]
+      refine ⟨?_, ⟨?_, ?_, ?_, ?_⟩, ?_⟩
+      · exact abs_dropLast q _ rfl rfl (by intros; rfl)
+      · exact h0
+      · simp; omega
+      · simp; omega
+      · intro k k1 k2; exact h3 k k1 (by simp at k2; omega)
+      · trivial
+    · simp only [hf, if_false]
+      have hs : q.base ≤ q.top - 1 := by omega
+      simp only [hs, if_true, true_and]
+      refine ⟨?_, ⟨?_, ?_, ?_, ?_⟩, ?_⟩
+      · split
+        all_goals exact abs_dropLast q _ rfl rfl (by intro k k1 k2; simp [upd_apply]; omega)
+      · split <;> exact h0
+      · split <;> (simp; omega)
+      · split <;> (simp; omega)
+      · intro k k1 k2
+        have : k < q.top - 1 := by split at k2 <;> (simp at k2; omega)
+        have k1' : q.base ≤ k := by split at k1 <;> (simp at k1; omega)
+        have := h3 k k1' (by omega)
+        split <;> (simp only [upd_apply]; split; omega; exact this)
+      · split <;> rfl
+
+theorem take_spec (q : Q) (h : WF q) :
+    OpSpec q .take (take q).1 (take q).2 ∧ WF (take q).1 ∧ (take q).1.size = q.size := by
+  have h' := h
+  obtain ⟨h0, h1, h2, h3⟩ := h
+  unfold OpSpec take
+  by_cases hq : q.top - q.base ≤ 0
+  · have he : q.abs = [] := (abs_nil_iff q).2 (by omega)
+    simp [hq, he, h']
+  · have hlt : q.base < q.top := by omega
+    have hl : q.abs.head?.join = q.ptr q.base := by rw [abs_head?]; simp [hlt]
+    simp only [hq, if_false, hlt, if_true, hl, true_and]
+    refine ⟨?_, ⟨?_, ?_, ?_, ?_⟩, ?_⟩
+    · exact abs_tail q _ rfl rfl (by intros; rfl)
+    · simp; omega
+    · simp; omega
+    · exact h2
+    · intro k k1 k2; exact h3 k (by simp at k1; omega) k2
+    · trivial
+
+theorem wtake_spec (q : Q) (a : Bool) (h : WF q) :
+    OpSpec q (.wtake a) (wtake q a).1 (wtake q a).2 ∧ WF (wtake q a).1 ∧ (wtake q a).1.size = q.size := by
+  have h' := h
+  obtain ⟨h0, h1, h2, h3⟩ := h
+  by_cases hq : q.top - q.base ≤ 0
+  · have he : q.abs = [] := (abs_nil_iff q).2 (by omega)
+    cases a <;> simp [OpSpec, wtake, hq, he, h']
+  · have hlt : q.base < q.top := by omega
+    have hl : q.abs.head?.join = q.ptr q.base := by rw [abs_head?]; simp [hlt]
+    cases a
+    · simp only [OpSpec, wtake, hq, if_false, hlt, if_true, true_and, Bool.false_eq_true]
+      exact ⟨⟨h0, h1, h2, h3⟩, trivial⟩
+    · simp only [OpSpec, wtake, hq, if_false, hlt, if_true, hl, true_and]
+      refine ⟨?_, ⟨?_, ?_, ?_, ?_⟩, ?_⟩
+      · exact abs_tail q _ rfl rfl (by intros; rfl)
+      · simp; omega
+      · simp; omega
+      · exact h2
+      · intro k k1 k2; exact h3 k (by simp at k1; omega) k2
+      · trivial
+
+theorem peek_spec (q : Q) (h : WF q) :
+    OpSpec q .peek (peek q).1 (peek q).2 ∧ WF (peek q).1 ∧ (peek q).1.size = q.size := by
+  unfold OpSpec peek
+  by_cases hq : q.top - q.base ≤ 0
+  · have he : q.abs = [] := (abs_nil_iff q).2 (by omega)
+    simp [hq, he, h]
+  · have hlt : q.base < q.top := by omega
+    have hl : q.abs.head?.join = q.ptr q.base := by rw [abs_head?]; simp [hlt]
+    simp [hq, hlt, hl, h]
+
+theorem wpeek_spec (q : Q) (h : WF q) :
+    OpSpec q .wpeek (wpeek q).1 (wpeek q).2 ∧ WF (wpeek q).1 ∧ (wpeek q).1.size = q.size := by
+  have h' := h
+  obtain ⟨h0, h1, h2, h3⟩ := h
+  unfold OpSpec wpeek
+  by_cases hq : q.top - q.base ≤ 0
+  · have he : q.abs = [] := (abs_nil_iff q).2 (by omega)
+    simp [hq, he, h']
+  · have hlt : q.base < q.top := by omega
+    have hl : q.abs.head?.join = q.ptr q.base := by rw [abs_head?]; simp [hlt]
+    simp only [hq, if_false, hl]
+    cases hc : q.cache with
+    | some x => simp [h']
+    | none =>
+      simp only [hlt, if_true]
+      refine ⟨⟨?_, ?_⟩, ⟨?_, ?_, ?_, ?_⟩, ?_⟩
+      · exact abs_congr q _ rfl rfl (by intros; rfl)
+      · intro _; trivial
+      · exact h0
+      · exact h1
+      · exact h2
+      · exact h3
+      · trivial
+
+theorem trypass_spec (q : Q) (e : Elem) (h : WF q) :
+    OpSpec q (.trypass e) (trypass q e).1 (trypass q e).2 ∧ WF (trypass q e).1 ∧ (trypass q e).1.size = q.size := by
+  have h' := h
+  obtain ⟨h0, h1, h2, h3⟩ := h
+  unfold OpSpec trypass
+  by_cases hb : q.base = 0
+  · simp [hb, h']
+  · simp only [hb, if_false, true_and]
+    refine ⟨?_, ⟨?_, ?_, ?_, ?_⟩, ?_⟩
+    · exact abs_cons q _ _ rfl rfl h1 (by intro k k1 k2; simp [upd_apply]; omega) (by simp)
+    · simp; omega
+    · simp; omega
+    · exact h2
+    · intro k k1 k2
+      simp only [upd_apply]
+      split
+      · exact ⟨_, rfl⟩
+      · exact h3 k (by simp at k1; omega) k2
+    · trivial
+
+theorem pass_spec (q : Q) (e : Elem) (h : WF q) :
+    OpSpec q (.pass e) (pass q e).1 (pass q e).2 ∧ WF (pass q e).1 ∧ (pass q e).1.size = q.size := by
+  have t := trypass_spec q e h
+  unfold OpSpec at t ⊢
+  unfold pass
+  by_cases hb : q.base = 0
+  · simp [hb, h]
+  · simp only [hb, if_false, true_and] at t ⊢
+    exact ⟨t.1.2, t.2⟩
+
+theorem put_spec (q : Q) (e : Elem) (h : WF q) :
+    OpSpec q (.put e) (put q e).1 (put q e).2 ∧ WF (put q e).1 ∧ (put q e).1.size = q.size := by
+  have h' := h
+  obtain ⟨h0, h1, h2, h3⟩ := h
+  unfold OpSpec put Q.full
+  by_cases hb : q.base = 0
+  · by_cases ht : q.top = q.size
+    · simp [ht, hb, h']
+    · obtain ⟨⟨r0, r1, r2, r3⟩, rb, rs⟩ := recentreUp_wf q h' hb ht
+      simp only [ht, hb, if_true, if_false, false_and, true_and]
+      refine ⟨?_, ⟨?_, ?_, ?_, ?_⟩, ?_⟩
+      · rw [← recentreUp_abs q]
+        exact abs_cons (recentreUp q) _ _ rfl rfl r1 (by intro k k1 k2; simp [upd_apply]; omega) (by simp)
+      · simp; omega
+      · simp; omega
+      · exact r2
+      · intro k k1 k2
+        simp only [upd_apply]
+        split
+        · exact ⟨_, rfl⟩
+        · exact r3 k (by simp at k1; omega) k2
+      · exact rs
+  · simp only [hb, if_false, and_false, true_and]
+    refine ⟨?_, ⟨?_, ?_, ?_, ?_⟩, ?_⟩
+    · exact abs_cons q _ _ rfl rfl h1 (by intro k k1 k2; simp [upd_apply]; omega) (by simp)
+    · simp; omega
+    · simp; omega
+    · exact h2
+    · intro k k1 k2
+      simp only [upd_apply]
+      split
+      · exact ⟨_, rfl⟩
+      · exact h3 k (by simp at k1; omega) k2
+    · trivial
+
+theorem clear_spec (q : Q) (h : WF q) :
+    OpSpec q .clear (clear q).1 (clear q).2 ∧ WF (clear q).1 ∧ (clear q).1.size = q.size := by
+  have h' := h
+  obtain ⟨h0, h1, h2, h3⟩ := h
+  unfold OpSpec clear
+  by_cases hq : q.top = q.base
+  · have he : q.abs = [] := (abs_nil_iff q).2 (by omega)
+    simp only [hq, he, if_true, true_and]
+    refine ⟨?_, ⟨?_, ?_, ?_, ?_⟩, ?_⟩
+    · rw [abs_nil_iff]; simp
+    · simp; omega
+    · simp
+    · simp; omega
+    · intro k k1 k2; simp at k1 k2; omega
+    · trivial
+  · have he : q.abs ≠ [] := by rw [Ne, abs_nil_iff]; omega
+    simp [hq, he, h']
+
+theorem exec_spec (q : Q) (op : Op) (h : WF q) :
+    OpSpec q op (exec q op).1 (exec q op).2 ∧ WF (exec q op).1 ∧ (exec q op).1.size = q.size := by
+  cases op with
+  | push e => exact push_spec q e h
+  | pop => exact pop_spec q h
+  | take => exact take_spec q h
+  | wtake a => exact wtake_spec q a h
+  | peek => exact peek_spec q h
+  | wpeek => exact wpeek_spec q h
+  | trypass e => exact trypass_spec q e h
+  | pass e => exact pass_spec q e h
+  | put e => exact put_spec q e h
+  | clear => exact clear_spec q h
+
+theorem init_wf (n : Int) (hn : 0 ≤ n) : WF (Q.init n) := by
+  refine ⟨?_, ?_, ?_, ?_⟩ <;> simp only [Q.init]
+  · omega
+  · omega
+  · omega
+  · intro k k1 k2; omega
+
+/-- every state of every sequential history (fatal outcomes end a history) is well-formed -/
+theorem seq_reachable_wf (n : Int) (hn : 0 ≤ n) (q : Q) (hq : Reachable seqStep (Q.init n) q) :
+    WF q ∧ q.size = n := by
+  refine inv_reachable seqStep (Q.init n) (fun q => WF q ∧ q.size = n) ⟨init_wf n hn, rfl⟩ ?_ q hq
+  intro s op s' ⟨hw, hsz⟩ hs
+  unfold seqStep at hs
+  split at hs
+  · simp at hs
+  · simp at hs; subst hs
+    have := exec_spec s op hw
+    exact ⟨this.2.1, by rw [this.2.2, hsz]⟩
+
+/-- the `abort()` guards are reached exactly by push / put on a full queue -/
+theorem abort_iff (q : Q) (op : Op) :
+    (exec q op).2 = .abort ↔ q.full ∧ ((∃ e, op = .push e) ∨ (∃ e, op = .put e)) := by
+  cases op <;> simp only [exec, push, pop, take, wtake, peek, wpeek, trypass, pass, put, clear, Q.full]
+  case push e => by_cases h1 : q.top = q.size <;> by_cases h2 : q.base = 0 <;> simp [h1, h2]
+  case put e => by_cases h1 : q.top = q.size <;> by_cases h2 : q.base = 0 <;> simp [h1, h2]
+  all_goals (repeat' split) <;> simp
+
 end MythVerif.Wsq
